@@ -87,6 +87,33 @@ def wt_outputs(tier='quick', seed=0):
                             check(o2, f'{name} after {n1}')
                     except Exception:
                         continue
+    # texts that are either rejected or must yield a well-typed AST (quantifier element types, shared references)
+    from hpl.parser import predicate_parser
+    pp = predicate_parser()
+    extra = ['{ forall i in [0 to 3]: (@i = "a") }', '{ forall i in {1, 2}: (@i = "a") }', '{ exists i in {"a", "b"}: @i > 1 }',
+             '{ forall i in [0 to 3]: (@i = x and x) }', '{ a > 0 and a = b and a }', '{ a = b and b = c and a > 0 and c }',
+             '{ a and (a = b) and b > 0 }', '{ forall i in xs: (@i > 0 and @i) }', '{ x > 0 and (forall i in {x, "s"}: @i = x) }']
+    for text in extra:
+        cases += 1
+        try:
+            p = pp.parse(text)
+        except (TypeError, Exception):
+            continue
+        e = p.condition
+        groups = {}
+        for node in walk(e):
+            if node.is_accessor or (node.is_value and node.is_variable):
+                groups.setdefault(str(node), []).append(node.data_type)
+        shared = True
+        for k, tys in groups.items():
+            m = tys[0]
+            for t in tys[1:]:
+                m = m & t
+            if not m:
+                shared = False
+        if (not wt(e) or not shared) and len(violations) < 5:
+            violations.append({'witness': text, 'what': f'`{text}` is accepted but its AST is not well-typed '
+                                                       f'({"occurrences of a reference share no type" if not shared else "node-level"})'})
     if f16:
         violations.append({'witness': 'F16', 'what': f'{f16} function-call arguments keep a type set outside the parameter type (e.g. abs(a): a stays Bool|Number|String)'})
     return {'obligations_n': 0, 'discharged_n': 0, 'violations': violations, 'faults': [],
